@@ -70,5 +70,45 @@ def main():
     sys.exit(1 if fails else 0)
 
 
+def main_divergence():
+    """one time step has no power flow solution; continue_on_divergence=True: that step is reported as failed and every later step equals a
+    fresh power flow"""
+    import copy
+    import logging
+    import pandas as pd
+    import pandapower.networks as pn
+    from pandapower.control import ConstControl
+    from pandapower.timeseries import OutputWriter, DFData, run_timeseries
+    logging.disable(logging.CRITICAL)
+    fails = []
+    net = pn.simple_four_bus_system()
+    base = copy.deepcopy(net)
+    prof = pd.DataFrame({"a": [0.03, 0.04, 800., 0.035, 0.02], "b": [0.03, 0.02, 0.03, 0.045, 0.03]})
+    ConstControl(net, "load", "p_mw", element_index=[0, 1], profile_name=["a", "b"], data_source=DFData(prof))
+    ow = OutputWriter(net, output_path=None, log_variables=[("res_bus", "vm_pu"), ("res_load", "p_mw")])
+    run_timeseries(net, time_steps=list(prof.index), continue_on_divergence=True, verbose=False)
+    failed = ow.output["Parameters"]["powerflow_failed"]
+    for t in prof.index:
+        ref = copy.deepcopy(base)
+        ref.load.loc[[0, 1], "p_mw"] = prof.loc[t].values
+        try:
+            pp.runpp(ref)
+        except pp.LoadflowNotConverged:
+            if not failed.loc[t]:
+                fails.append(f"time step {t} has no power flow solution but is not reported as failed")
+            continue
+        if failed.loc[t]:
+            fails.append(f"time step {t} (after the diverged step 2) is reported as failed, a fresh power flow converges")
+            continue
+        rec = ow.output["res_bus.vm_pu"].loc[t].values.astype(float)
+        if not np.allclose(rec, ref.res_bus.vm_pu.values, atol=1e-6, equal_nan=True):
+            fails.append(f"time step {t}: recorded res_bus.vm_pu {np.round(rec, 5)} != fresh power flow {np.round(ref.res_bus.vm_pu.values, 5)}")
+    for f in fails:
+        print("REPRODUCED:", f)
+    if not fails:
+        print("not reproduced: the steps after a diverged step equal fresh power flows")
+    sys.exit(1 if fails else 0)
+
+
 if __name__ == "__main__":
     main()
